@@ -192,10 +192,7 @@ def check_property(ctx, db):
                 it.run_list(stmts)
                 res.append(it.ops)
             except O.NeedAtom as na:
-                for v in (False, True):
-                    e2 = dict(env)
-                    e2[na.key] = v
-                    envs.append(e2)
+                envs.extend(O.fork(env, na.key))
         for ops in res:
             w = [(o[0], o[1]) for o in ops if o[0] in ('byte', 'uint', 'sint', 'real', 'bytes')]
             n += 1
@@ -218,14 +215,38 @@ def check_property(ctx, db):
                 what = 'code %d carries `%s`; read_oas arm %s reads `%s` into %s' % (code, wseq, dtypes.get(code), rseq, rtype)
             ctx.check(ok, 'R-TABLE', 'roundtrip/PROPERTY-value/%s/%d' % (pt[0], code), top.loc(), what, 'value type %s is written as code %d with fields `%s`; read_oas reads `%s` into %s%s' % (pt[0], code, wseq, rseq, rtype, ' (queued as string reference)' if unf else ''))
     ctx.require('R-TABLE property value arms', n, 6)
-    # string class table: binary -> 14, space -> 13, else 15
+    # string class table: binary -> 14, space -> 13, else 15. The arm's classifier is evaluated (sa/minieval.py) on every
+    # string of up to 3 bytes over the boundary values of the three byte classes; the first byte handed to oasis_putc
+    # is the reference type.
+    from .. import minieval as M
+    import itertools
     sarm = next((stmts for labels, stmts, top in tables.switch_arms(sw) if [ptypes.get(l) for l in labels] == ['String']), [])
-    chain = next((i for st in sarm for i in st.walk() if i.k == 'IfStmt' and norm(i.child('cond').text()) == 'binary'), None)
-    ok = chain is not None
-    if ok:
-        t = norm(clone.canon(chain, f))
-        ok = re.fullmatch(r'if \(v\d+\) oasis_putc\(14, p\d+\) else if \(v\d+\) oasis_putc\(13, p\d+\) else oasis_putc\(15, p\d+\) ?', re.sub(r'\s+', ' ', t)) is not None
-    ctx.check(ok, 'R-TABLE', 'roundtrip/PROPERTY-string-class', f.loc(), 'binary -> 14 (b-string reference), printable with spaces -> 13 (a-string), printable without spaces -> 15 (n-string)')
+    reps = (0x00, 0x1F, 0x20, 0x21, 0x41, 0x7E, 0x7F, 0xFF)
+    bad = None
+    nrun = 0
+
+    def putc(callee, args, node):
+        if callee == 'gdstk::oasis_putc':
+            raise M.Stop(args[0])
+        return None
+    for ln in range(0, 4):
+        for bs in itertools.product(reps, repeat=ln):
+            arr = list(bs)
+            mi = M.Mini(db, hook=putc, members={'value->bytes': M.Ptr(arr, 0), 'value->count': len(arr)})
+            got = None
+            try:
+                for st in sarm:
+                    mi.run(st, {})
+            except M.Stop as sp:
+                got = sp.v
+            except (M._Break, M.Return):
+                pass
+            want = 14 if any(b < 0x20 or b > 0x7E for b in bs) else (13 if 0x20 in bs else 15)
+            nrun += 1
+            if got != want and bad is None:
+                bad = 'the string with bytes [%s] is written with reference type %s; the format requires %d (%s)' % (' '.join('%02x' % b for b in bs), got, want, {14: 'b-string: it has a non-printable byte', 13: 'a-string: printable with a space', 15: 'n-string: printable, no space'}[want])
+    ctx.explored['valuations'] += nrun
+    ctx.check(bad is None, 'R-TABLE', 'roundtrip/PROPERTY-string-class', f.loc(), 'binary -> 14 (b-string reference), printable with spaces -> 13 (a-string), printable without spaces -> 15 (n-string), for all %d strings of up to 3 bytes over the class boundary values' % nrun, bad)
     # resolution at END: unfinished values become strings from the PROPSTRING table
     t = norm(clone.canon(rf.body, rf))
     ok = re.search(r'v\d+->type = PropertyType::String', t) is not None and 'property_value_table' in ' '.join(v.n for v in rf.walk() if v.k == 'VarDecl')
@@ -268,10 +289,7 @@ def check_repetition(ctx, db):
                 it.run_list(stmts)
                 done.append((env, it.ops))
             except O.NeedAtom as na:
-                for v in (False, True):
-                    e2 = dict(env)
-                    e2[na.key] = v
-                    envs.append(e2)
+                envs.extend(O.fork(env, na.key))
         ctx.explored['valuations'] += len(done)
         for env, ops in done:
             fl = writer_rep_fields(ops)
@@ -907,14 +925,17 @@ def check_validator(ctx, db):
     ok = seek is not None and seek.args[1].cv == -5 and size is not None and re.fullmatch(r'\(?(\(uint64_t\))?\(?ftell\(in\) \+ 1\)?\)?', norm(size.child('init').text())) is not None and fs is not None and '[5]' in (fs.t or '')
     ctx.check(ok, 'R-CONST', 'oas_validate/coverage', v.loc(), 'the validator signs file length - 4 bytes: everything up to and including the validation-scheme byte, which is what passes through the writer\'s accumulator', 'seek %s, size %s' % (seek and seek.args[1].cv, size and norm(size.child('init').text())))
     arms = {}
+    from ..facts import expr_text
+    hook, _drop = clone.temps(v, [v.body], None, pointers=True)     # named const temporaries read as their initialisers
+    tx = lambda e: norm(expr_text(e, None, hook))
     for i in v.walk():
         if i.k == 'IfStmt':
-            m = re.fullmatch(r'\(file_sum\[0\] == (\d+)\)', norm(i.child('cond').text()))
+            m = re.fullmatch(r'\(file_sum\[0\] == (\d+)\)', tx(i.child('cond')))
             if m:
                 sig = next((x for x in i.child('then').walk() if x.k == 'VarDecl' and x.n == 'sig'), None)
                 upd = sorted({norm(c.callee or '') for c in i.child('then').walk() if c.k == 'CallExpr' and (c.callee or '').split('::')[-1] in ('crc32', 'checksum32') and len(c.args) == 3 and norm(c.args[0].text()) == 'sig'})
                 swp = any(c.k == 'CallExpr' and c.callee == 'gdstk::little_endian_swap32' for c in i.child('then').walk())
-                cmpv = any(x.k == 'BinaryOperator' and x.op == '!=' and 'file_sum + 1' in norm(x.text()) for x in i.child('then').walk())
+                cmpv = any(x.k == 'BinaryOperator' and x.op == '!=' and 'file_sum + 1' in tx(x) for x in i.child('then').walk())
                 arms[int(m.group(1))] = (norm(sig.child('init').text()) if sig is not None else None, upd, swp, cmpv)
     want = {1: ('crc32(0, NULL, 0)', ['crc32'], True, True), 2: ('0', ['checksum32'], True, True)}
     ctx.check(arms == want, 'R-TABLE', 'oas_validate/schemes', v.loc(), 'scheme 1 = CRC32 seeded with crc32(0, NULL, 0), scheme 2 = CHECKSUM32 seeded with 0; the result is converted to little-endian and compared with the stored word', 'validator arms: %s' % arms)
